@@ -53,6 +53,7 @@ pub fn gen_c01(ctx: &mut Ctx) {
     }
     bloom_sparse_unions(ctx, 60 * ctx.tier_scale);
     gen_c06_cuckoo_sparse(ctx, 20 * ctx.tier_scale);
+    cuckoo_boundary_fingerprints(ctx);
     for _ in 0..(12 * ctx.tier_scale) {
         ctx.case("bloom");
         bloom_history(ctx, 150);
@@ -263,7 +264,48 @@ pub fn gen_c06_qf_lastslot(ctx: &mut Ctx, ncases: u64) {
     }
 }
 
+/// merges of sketches built by `with_registers_and_hash` from arbitrary bytes (a register is a plain u8:
+/// foreign or deserialised sketches may hold any value): the result is the register-wise maximum, whatever
+/// the values; commutative, idempotent
+pub fn gen_c06_hll_bytes(ctx: &mut Ctx, ncases: u64) {
+    for c in 0..ncases {
+        ctx.case("c06.hll.bytes");
+        let b = 4 + c % 3;
+        let m = 1u64 << b;
+        let mk = |ctx: &mut Ctx, mode: u64| -> Vec<u64> {
+            (0..m).map(|_| match mode {
+                0 => ctx.rng.below(256),
+                1 => *ctx.rng.pick(&[0u64, 1, 61, 64, 127, 128, 129, 200, 255]),
+                _ => if ctx.rng.chance(1, 4) { 128 + ctx.rng.below(128) } else { ctx.rng.below(20) },
+            }).collect()
+        };
+        let (ma, mb) = (ctx.rng.below(3), ctx.rng.below(3));
+        let ra = mk(ctx, ma);
+        let rb = mk(ctx, mb);
+        let rmax: Vec<u64> = ra.iter().zip(rb.iter()).map(|(x, y)| *x.max(y)).collect();
+        let js = |v: &Vec<u64>| v.iter().map(|x| x.to_string()).collect::<Vec<_>>().join(" ");
+        ctx.op(format!("hll.with 1 {} {}", b, js(&ra)));
+        ctx.op(format!("hll.with 2 {} {}", b, js(&rb)));
+        ctx.op(format!("hll.with 3 {} {}", b, js(&rmax))); // reference: register-wise max
+        ctx.op(format!("hll.with 4 {} {}", b, js(&rb)));   // snapshot of B
+        ctx.op(format!("hll.with 5 {} {}", b, js(&rb)));
+        ctx.op("hll.merge 1 2".into());
+        ctx.op("both hll.regs 1 3".into());
+        ctx.op("both hll.count 1 3".into());
+        ctx.op("both hll.regs 2 4".into());
+        ctx.op("hll.eq 1 3".into());
+        ctx.op(format!("hll.with 6 {} {}", b, js(&ra)));
+        ctx.op("hll.merge 5 6".into()); // B.merge(A)
+        ctx.op("both hll.regs 1 5".into());
+        ctx.op("hll.merge 1 2".into()); // twice
+        ctx.op("both hll.regs 1 3".into());
+        ctx.op("hll.merge 1 1".into()); // with itself
+        ctx.op("both hll.regs 1 3".into());
+    }
+}
+
 pub fn gen_c06(ctx: &mut Ctx) {
+    gen_c06_hll_bytes(ctx, 24 * ctx.tier_scale);
     gen_c06_cuckoo_loaded(ctx, 40 * ctx.tier_scale);
     gen_c06_cuckoo_sparse(ctx, 60 * ctx.tier_scale);
     gen_c06_qf_lastslot(ctx, 12 * ctx.tier_scale);
@@ -696,6 +738,52 @@ fn c12_cuckoo_fail_delete_fail(ctx: &mut Ctx, round: u64) {
     }
 }
 
+/// Boundary fingerprints: under the identity-like hasher the keys are the fingerprint hashes themselves —
+/// 0, 1, both neighbours of 2^l − 1 and of its multiples, u64::MAX — for every fingerprint width incl. 64
+/// (a fingerprint of 0 is the free-slot marker: such an element would be stored nowhere).
+pub fn cuckoo_boundary_fingerprints(ctx: &mut Ctx) {
+    for &lf in &[2u64, 3, 8, 16, 63, 64] {
+        ctx.case("cuckoo.boundaryfp");
+        ctx.hasher(ScriptBH::xor());
+        let c = CuckooCfg { bs: *ctx.rng.pick(&[2u64, 4]), nb: *ctx.rng.pick(&[2u64, 4, 8]), lf };
+        cuckoo_new(ctx, 1, &c);
+        cuckoo_new(ctx, 2, &c);
+        let xm = if lf == 64 { u64::MAX } else { (1u64 << lf) - 1 };
+        let mut univ: Vec<u64> = vec![0, 1, xm - 1, xm, xm.wrapping_add(1), u64::MAX, u64::MAX - 1, xm.wrapping_mul(2), xm.wrapping_mul(2).wrapping_sub(1), 1u64 << 63];
+        for _ in 0..6 {
+            univ.push(ctx.rng.next());
+        }
+        for k in univ.clone() {
+            let a = ctx.op(format!("cuckoo.insert 1 {}", k));
+            if a == "true" {
+                ctx.op(format!("cuckoo.query 1 {}", k));
+            }
+            ctx.op("cuckoo.len 1".into());
+        }
+        for k in &univ {
+            ctx.op(format!("cuckoo.query 1 {}", k));
+        }
+        // fill the rest of the table, then everything accepted so far must still be found and deletable
+        for _ in 0..(2 * c.bs * c.nb) {
+            let k = *ctx.rng.pick(&univ);
+            ctx.op(format!("cuckoo.insert 1 {}", k));
+        }
+        for k in &univ {
+            ctx.op(format!("cuckoo.query 1 {}", k));
+        }
+        ctx.op("cuckoo.union 2 1".into());
+        for k in &univ {
+            ctx.op(format!("both cuckoo.query 1 2 {}", k));
+        }
+        ctx.op("both cuckoo.len 1 2".into());
+        for k in &univ {
+            ctx.op(format!("cuckoo.delete 1 {}", k));
+            ctx.op(format!("cuckoo.query 1 {}", k));
+        }
+        ctx.op("cuckoo.len 1".into());
+    }
+}
+
 /// Failing inserts into a table large enough that the eviction walk (500 kicks) ends on a slot it
 /// has not visited before; every element accepted earlier must survive each rejected insert.
 pub fn cuckoo_big_full(ctx: &mut Ctx, ncases: u64) {
@@ -865,6 +953,44 @@ pub fn gen_c12(ctx: &mut Ctx) {
         }
         unchanged_check(ctx, "qf", 2, 8, &univ);
 
+        // ---- quotient filter: the union exceeds the capacity by one or two classes, also for tables of
+        // 128 and 256 slots (any "is there room" pre-check that rounds is off by exactly these) -----------
+        if round % 5 == 0 {
+            ctx.case("c12.qf.marginal");
+            ctx.hasher(ScriptBH::xor());
+            let q = *ctx.rng.pick(&[3u64, 5, 7, 7, 8]);
+            let r = ctx.rng.range(2, 6);
+            let cap = 1u64 << q;
+            ctx.op(format!("qf.new 1 {} {}", q, r));
+            ctx.op(format!("qf.new 2 {} {}", q, r));
+            let over = ctx.rng.range(1, 2);
+            let na = ctx.rng.range(cap / 4, cap - 1);
+            let nbq = cap + over - na;
+            // distinct classes: (quotient i, remainder 1) for A, (quotient i, remainder 2) for B
+            let mut univ = vec![];
+            for i in 0..na {
+                let k = qf_key(ctx, q, r, i % cap, 1);
+                univ.push(k);
+                ctx.op(format!("qf.insert 1 {}", k));
+            }
+            for i in 0..nbq {
+                let k = qf_key(ctx, q, r, (i * 3 + 1) % cap, 2);
+                univ.push(k);
+                ctx.op(format!("qf.insert 2 {}", k));
+            }
+            ctx.op("qf.clone 1 9".into());
+            ctx.op("qf.clone 2 8".into());
+            let a = ctx.op("qf.union 1 2".into());
+            ctx.stat(&format!("c12.qf.marginal.{}.q{}", a, q), 1);
+            let probe: Vec<u64> = univ.iter().cloned().step_by(((univ.len() / 48).max(1)) as usize).collect();
+            if a == "full" {
+                unchanged_check(ctx, "qf", 1, 9, &probe);
+                let k = qf_key(ctx, q, r, 0, 3);
+                ctx.op(format!("both qf.insert 1 9 {}", k));
+                ctx.op("both qf.len 1 9".into());
+            }
+            unchanged_check(ctx, "qf", 2, 8, &probe);
+        }
         // ---- quotient filter: operands with a shared ancestor ("clone, then diverge") -----------
         // every cluster head of B is already in A, the new fingerprints sit in shifted slots
         ctx.case("c12.qf.shared");
@@ -960,6 +1086,7 @@ pub fn gen_c14(ctx: &mut Ctx) {
         cuckoo_history(ctx, 260);
     }
     cuckoo_big_full(ctx, 4 * ctx.tier_scale);
+    cuckoo_boundary_fingerprints(ctx);
     // unions of sparse filters whose fingerprint width does not divide 64 (slots straddle the words of the
     // packed table): the multiset of the receiver is the sum of both
     gen_c06_cuckoo_sparse(ctx, 30 * ctx.tier_scale);
